@@ -44,6 +44,7 @@ LABELS = ('L0vv', 'Lss', 'Lsv', 'L1vv')
 
 def sizes_for(calc, quick):
     if calc.crys.dim == 2: return (9, 13, 17, 21) if quick else (13, 17, 21, 25)
+    if getattr(calc, 'Nthermo', 1) >= 2: return (7, 9, 11, 13)      # the kinetic shell (range Nthermo + 1) must not wrap
     return (5, 7, 9, 11) if (quick or calc.N > 1) else (7, 9, 11, 13)
 
 
@@ -137,10 +138,11 @@ def run(ctx):
             ctx.case(('code', name, t, str(d['eneT1'])), nontrivial=True,
                      sample=dict(calculator=name, deviations={lab: [float(dev), float(tol)] for lab, dev, tol in res}))
             ctx.count('code-vs-chain:' + name)
-    if not ctx.quick:
-        for name in ('sq2d', 'fcc', 'tri2d'):
+    # thermodynamic range 2: crystals where a kinetic-only star lies closer than the outermost thermodynamic star (sc, bcc) included
+    if True:
+        for name in (('sc',) if ctx.quick else ('sq2d', 'fcc', 'tri2d', 'sc', 'bcc')):
             calc, calc6 = vc.calculator(name, 2, 4), vc.calculator(name, 2, 6)
-            for t in range(2):
+            for t in range(1 if ctx.quick else 2):
                 d = vc.rand_data(ctx.rng, calc)
                 compare_code(ctx, name, calc, calc6, d, tag=':Nthermo2')
                 ctx.case(('code', name, 'N2', t, str(d['eneT1'])), nontrivial=True); ctx.count('code-vs-chain:Nthermo2:' + name)
